@@ -43,6 +43,7 @@ THEOREMS = [
     "C17_rotation", "C17_rotated_names_distinct", "C17_refuted_rotation_same_second_if_reverted",
     "C17_generated_writer_table", "C17_writer_set", "C17_close_flush_never_raise", "C17_generated_stdout_shapes",
     "C17_stdout_exit_delivers", "C17_stdout_text_delivers_at_once", "C17_stdout_printer_delivers_at_once",
+    "C17_generated_given_fp",
 ]
 
 UTC = _dt.timezone.utc
@@ -565,7 +566,8 @@ def history_case(tname, hist, workdir):
         if obs["indep_records"] != expected:
             problems.append("%s: independent read gives %s, written: %s" % (
                 label, obs["indep_err"] or obs["indep_records"], expected))
-    problems += unexpected_raises(family, hist, outs, errors)
+    raises = unexpected_raises(family, hist, outs, errors)
+    problems += raises
     kcase = None
     if problems:
         full = list(hist) + ["Del"]
@@ -573,7 +575,7 @@ def history_case(tname, hist, workdir):
         symptom = None
         if family == "stream" and full[0] in ("C", "Del"):
             klass = "bare-close-first"
-            if obs2["indep"] == [] and all(o == "Ok" for o in outs[:1]):
+            if obs2["indep"] == [] and all(o == "Ok" for o in outs[:1]) and not raises:
                 symptom = "zero-byte-stream"
         kcase = dict(adapter=family, klass=klass, symptom=symptom)
     terms = []
@@ -661,6 +663,94 @@ def history_plan(tier):
     for name in available_targets():
         plan[name] = main if name in ("stream", "jsonfile", "avro", "sqlite") else side
     return plan
+
+
+# ------------------------------------------------------------------------------------------------------
+# 1a. writers constructed on a caller-supplied file object; the caller keeps its reference until the very end
+
+GIVEN_MODEL = {   # class -> (model adapter, family, has reader, letters)
+    "RecordStreamWriter": ("AStream", "stream", True, "AB"), "RecordOutput": ("AStream", "stream", True, "AB"),
+    "StreamWriter": ("AStream", "stream", True, "AB"), "AvroWriter": ("AAvro", "avro", True, "A"),
+    "LineWriter": ("APlain", "text", False, "AB"), "TextWriter": ("APlain", "text", False, "AB"),
+    "JsonfileWriter": ("APlain", "json", True, "AB"), "RecordPrinter": (None, "text", False, "AB"),
+}
+GIVEN_EXT = {"stream": ".records", "avro": ".avro", "text": ".txt", "json": ".json"}
+
+
+def given_case(clsname, fpkind, hist, workdir):
+    """hist over WA / WB / F / C on <class>(fp) with fp opened by the caller (plain file, gzip.GzipFile, a large
+    BufferedWriter, a text file for the JSON writer); the disk is observed while the caller still holds fp"""
+    from vf.factgen import c17 as facts
+    k, family, has_reader, _ = GIVEN_MODEL[clsname]
+    cls, _ = facts.given_class(clsname)
+    codec = "gz" if fpkind == "gzip" else None
+    path = os.path.join(workdir, "given" + GIVEN_EXT[family] + (".gz" if codec else ""))
+    if os.path.exists(path):
+        os.remove(path)
+    fp = facts.open_given(fpkind, path)
+    w = _lib(lambda: cls(fp), "%s(<%s file object>)" % (clsname, fpkind))
+    outs, written, errors, after_write = [], [], [], []
+    nid = 0
+    for op in hist:
+        try:
+            if op[0] == "W":
+                r = mkrec(op[1], nid)
+                nid += 1
+                w.write(r)
+                written.append((op[1], nid - 1))
+            elif op == "F":
+                w.flush()
+            elif op == "C":
+                w.close()
+            outs.append("Ok")
+        except Exception as e:  # noqa
+            outs.append("Raised")
+            errors.append("%s: %s" % (type(e).__name__, str(e)[:80]))
+        if clsname == "RecordPrinter":
+            after_write.append((list(written), observe_file(family, codec, path, None)["indep_records"]))
+    reader_uri = None
+    if has_reader:
+        reader_uri = ("avro://" + path) if family == "avro" else path
+    has_close = "C" in hist
+    obs1 = observe_file(family, codec, path, reader_uri)          # writer and fp still referenced
+    del w
+    gc.collect()
+    obs2 = observe_file(family, codec, path, reader_uri)          # fp still referenced by the caller
+    fp_closed = bool(fp.closed)
+    try:
+        fp.close()
+    except Exception:
+        pass
+    problems = []
+    if clsname == "RecordPrinter":
+        # the printer owns no file: it flushes after every record, close() is a no-op
+        for acc, got in after_write:
+            if got != acc:
+                problems.append("after %d writes the file holds %s, written %s" % (len(acc), got, acc))
+                break
+    else:
+        for label, obs in ((("closed, the caller still holds the file object", obs1),) if has_close else ()) + \
+                (("after del of the writer, the caller still holds the file object", obs2),):
+            if has_reader and obs["reader"] != written:
+                problems.append("%s: RecordReader gives %s, written: %s" % (label, obs["reader_err"] or obs["reader"], written))
+            if obs["indep_records"] != written:
+                problems.append("%s: independent read gives %s, written: %s" % (label, obs["indep_err"] or obs["indep_records"], written))
+    raises = unexpected_raises(family, hist, outs, errors)
+    problems += raises
+    kcase = None
+    if problems and family == "stream" and (list(hist) + ["Del"])[0] in ("C", "Del"):
+        kcase = dict(adapter="stream", klass="bare-close-first", via="given-fp",
+                     symptom="zero-byte-stream" if obs2["indep"] == [] and all(o == "Ok" for o in outs[:1]) and not raises else None)
+    elif problems:
+        kcase = dict(adapter=family, klass=None, symptom=None)
+    terms = []
+    if k is not None:
+        if has_close:
+            terms.append("chk %s 1000 %s false %s %s %s" % (k, c_ops(hist), c_outs(outs), _opt(c_file(family, obs1)), c_reader(obs1, has_reader)))
+        terms.append("chk %s 1000 %s true %s %s %s" % (k, c_ops(hist), c_outs(outs), _opt(c_file(family, obs2)), c_reader(obs2, has_reader)))
+    meta = dict(kind="given-fp", cls=clsname, fileobj=fpkind, history=list(hist), outcomes=outs, errors=errors,
+                fileobj_closed_by_writer=fp_closed, before_del=_obs_brief(obs1) if has_close else None, after_del=_obs_brief(obs2))
+    return Case(terms, meta, problems[:4], kcase)
 
 
 # ------------------------------------------------------------------------------------------------------
@@ -1278,11 +1368,41 @@ def rotation_plan(tier):
 
 # ------------------------------------------------------------------------------------------------------
 
+class ScenarioTimeout(BaseException):
+    pass
+
+
+SCENARIO_TIMEOUT_S = 60
+
+
+def _alarm(signum, frame):
+    raise ScenarioTimeout()
+
+
 def _run_job(job):
-    """executed in a worker process: one case on the implementation"""
+    """executed in a worker process: one case on the implementation, under a per-scenario time limit"""
+    import signal
     kind, workroot, args = job
     wd = os.path.join(workroot, "w%d" % os.getpid())
     os.makedirs(wd, exist_ok=True)
+    old_handler = None
+    try:
+        old_handler = signal.signal(signal.SIGALRM, _alarm)
+        signal.setitimer(signal.ITIMER_REAL, SCENARIO_TIMEOUT_S)
+    except (ValueError, AttributeError):      # not the main thread of this process: no per-scenario limit
+        old_handler = None
+    try:
+        return _run_job_inner(kind, workroot, args, wd)
+    except ScenarioTimeout:
+        c = _failed_case(kind, args, LibraryFailure("the scenario did not finish within %d s (the library hangs or loops)" % SCENARIO_TIMEOUT_S))
+        return c
+    finally:
+        if old_handler is not None:
+            signal.setitimer(signal.ITIMER_REAL, 0)
+            signal.signal(signal.SIGALRM, old_handler)
+
+
+def _run_job_inner(kind, workroot, args, wd):
     try:
         if kind == "history":
             return history_case(args[0], args[1], wd)
@@ -1292,8 +1412,15 @@ def _run_job(job):
             return rotation_case(args[0], args[1], args[2], args[3], wd, args[4], name=args[5] if len(args) > 5 else "records")
         if kind == "stdout":
             return stdout_case(args[0], args[1], wd)
+        if kind == "given-fp":
+            return given_case(args[0], args[1], args[2], wd)
         raise ValueError(kind)
     except Exception as e:  # the writer could not even be driven through the case
+        return _failed_case(kind, args, e)
+
+
+def _failed_case(kind, args, e):
+    if True:
         import traceback
         meta = dict(kind=kind, args=repr(args), traceback=traceback.format_exc()[-1500:])
         if kind == "history":
@@ -1303,6 +1430,8 @@ def _run_job(job):
                         spelling=args[6])
         elif kind == "stdout":
             meta.update(writer=args[0], history=list(args[1]))
+        elif kind == "given-fp":
+            meta.update(cls=args[0], fileobj=args[1], history=list(args[2]))
         else:
             meta.update(template=args[0], ops=[list(o) if o != "C" else "C" for o in args[1]], clock=args[2], pre=args[3], archive=args[4],
                         name=args[5] if len(args) > 5 else "records")
@@ -1353,8 +1482,23 @@ def plan_jobs(ctx):
             if hist:
                 jobs.append((("split", root, (tname, hist, 2, 2, "writer", False, "abs")), ("split-history", tname, hist), True))
     ctx.notes.append("split: %d matrix cases (N x limit x suffix length x target x closing op x writer|rdump) + histories <= %d on split://" % (nsplit, maxlen))
-    # the stdout target, every writer kind that supports it
+    # writers on a caller-supplied file object
     from vf.factgen import c17 as facts
+    ngiven = 0
+    for clsname, _, _, kinds in facts.GIVEN_FP_CLASSES:
+        letters = GIVEN_MODEL[clsname][3]
+        alpha = ["W" + l for l in letters] + ["F", "C"]
+        for fpkind in kinds:
+            for n in range(0, (3 if ctx.tier == "quick" else 4) + 1):
+                for hist in itertools.product(alpha, repeat=n):
+                    if clsname in ("RecordStreamWriter", "RecordOutput", "RecordPrinter") and "C" in hist \
+                            and any(o != "C" for o in hist[hist.index("C"):]):
+                        continue      # low-level classes: nothing is promised for write()/flush() after close()
+                    ngiven += 1
+                    jobs.append((("given-fp", root, (clsname, fpkind, hist)), ("given-fp", clsname, fpkind, hist), len(hist) > 0))
+    ctx.notes.append("writers on a caller-supplied file object (plain / gzip.GzipFile / BufferedWriter / text), the caller keeping its "
+                     "reference: %d histories over write/flush/close (+ del)" % ngiven)
+    # the stdout target, every writer kind that supports it
     nso = 0
     for kind, _, _ in facts.STDOUT_KINDS:
         for n in range(0, (3 if ctx.tier == "quick" else 4) + 1):
@@ -1412,6 +1556,8 @@ def _describe(meta):
         return "split %s (target spelled %s, urlparse %s) count=%d suffix-length=%d via %s history %s" % (
             meta["target"], meta.get("spelling"), meta.get("urlparse"), meta["count"], meta["suffix_length"], meta["via"],
             " ".join(meta["history"]))
+    if meta["kind"] == "given-fp":
+        return "%s(fp) on a caller-held %s file object, history %s" % (meta["cls"], meta["fileobj"], " ".join(meta["history"]) or "(open only)")
     if meta["kind"] == "stdout":
         return "stdout target %s (RecordWriter(%r), stdout %s) history %s" % (
             meta["writer"], meta.get("uri"), "a terminal" if meta.get("terminal") else "a buffered file", " ".join(meta["history"]) or "(open only)")
@@ -1537,6 +1683,8 @@ def replay(obj):
                               name=obj.get("name", "records"))
         elif kind == "stdout":
             c = stdout_case(obj["writer"], tuple(obj["history"]), str(wd))
+        elif kind == "given-fp":
+            c = given_case(obj["cls"], obj["fileobj"], tuple(obj["history"]), str(wd))
         elif kind == "next-path":
             _, problems = next_path_cases()
             print("replay next-path:", problems[:3] or "ok")
